@@ -230,4 +230,47 @@ def crfListenerStep (st : CrfState) (pkt : List Byte) : CrfState × List Byte :=
       ({ adv.2 with prevAligned := a }, out)
   else (st, [])
 
+/-! ### CRF listener, AAF-talker mode: `aaf_talker_recv_pdu` and `aaf_talker_tx_timeout`.
+    The receive buffer is one CRF PDU (68 octets), zeroed; the max transit time `mtt` (ns, already
+    rounded up to the media clock period) is added to recovered timestamps. -/
+
+structure CrfTalkerState where
+  clk : CrfState := {}
+  firstAaf : Bool := true
+  armed : Bool := false
+  seq : Nat := 0
+  deriving Repr, DecidableEq
+
+def recoverMclkMtt (tsCrf prev mtt : Nat) : List Nat :=
+  (List.range 160).filterMap (fun idx =>
+    let ts := ((tsCrf + idx * MCLK_PERIOD) % 2 ^ 64 + mtt) % 2 ^ 64
+    if ts ≤ prev then none else some ts)
+
+def crfTalkerRecv (mtt : Nat) (st : CrfTalkerState) (pkt : List Byte) : CrfTalkerState :=
+  let r := recvInto CRF_BUF 0 pkt
+  let m := r.1
+  if r.2 ≠ CRF_BUF then st else
+  let st1 : CrfTalkerState :=
+    if getNamed Spec.commonHeader m 0 "SUBTYPE" = 0x4 ∧ crfPduValid m = true then
+      { st with clk := { st.clk with queue := st.clk.queue ++ recoverMclkMtt (beN m 20 8) st.clk.prev mtt } }
+    else st
+  if st1.firstAaf then
+    match st1.clk.queue with
+    | [] => st1                                   -- nothing to start from yet
+    | _ :: rest => { st1 with clk := { st1.clk with queue := rest }, firstAaf := false, armed := true }
+  else st1
+
+/-- the AAF PDU `init_aaf_pdu` prepares, with presentation time and sequence number filled in -/
+def crfTalkerPdu (ts seq : Nat) : List Byte :=
+  let m0 := Spec.pcm.canonical false 0 (fun _ => 0) 0
+  let m := [("TV", 1), ("STREAM_ID", STREAM_ID_L), ("FORMAT", 4), ("NSR", 5), ("CHANNELS_PER_FRAME", 2),
+            ("BIT_DEPTH", 16), ("STREAM_DATA_LENGTH", 24), ("SP", 0), ("AVTP_TIMESTAMP", ts % 2 ^ 32),
+            ("SEQUENCE_NUM", seq % 256)].foldl (fun m (p : String × Nat) => setNamed Spec.pcm m 0 p.1 p.2) m0
+  Mem.read m 0 24 ++ List.replicate 24 0
+
+/-- `aaf_talker_tx_timeout` for one expiration: the packet sent -/
+def crfTalkerFire (st : CrfTalkerState) : CrfTalkerState × List Byte :=
+  let r := st.clk.next
+  ({ st with clk := r.2, seq := (st.seq + 1) % 256 }, crfTalkerPdu r.1 st.seq)
+
 end O1722
